@@ -875,9 +875,24 @@ def check_pool(chk, gene, cov, cands, labels, dbname, case, max_size=3):
                         sa, sb = [x["score"] for x in alone[id(c)]], [x["score"] for x in res[id(c)]]
                         if len(sa) == len(sb) and all(abs(u - v) <= SCORE_RESOLUTION for u, v in zip(sa, sb)):
                             kind = "tie-refinement"
+                    # does the candidate, refined in the pool, LOSE a variant of its own pooled list (its alleles' definitions and its
+                    # own additions) that every refinement of it alone carries?  The two pool findings explain variants that OTHER
+                    # candidates bring or another structure's filter removes from the evidence of a smaller structure; a candidate's
+                    # own variant, carried alone with full evidence, going missing is neither
+                    def carried_of(al):       # al = [major, minor, added, missing]
+                        ma = gene.alleles[al[0]]
+                        d = {(m.pos, m.op) for m in ma.func_muts} | {(m.pos, m.op) for m in ma.minors[al[1]].neutral_muts}
+                        return (d | {tuple(x) for x in al[2]}) - {tuple(x) for x in al[3]}
+                    def carried_all(refs):
+                        sets = [set().union(*[carried_of(al) for al in r["alleles"]]) if r["alleles"] else set() for r in refs]
+                        return set.intersection(*sets) if sets else set()
+                    def carried_any(refs):
+                        return set().union(*[carried_of(al) for r in refs for al in r["alleles"]]) if refs else set()
+                    own = {(m.pos, m.op) for m in pooled_variants(gene, [c])}
+                    lost = sorted((carried_all(alone[id(c)]) & own) - carried_any(res[id(c)])) if res[id(c)] else []
                     chk.fail("candidate-independent",
                              {"db": dbname, "structures": structures, "pool": "same" if pool_same else "different",
-                              "last_has_own_structure": last_same, "difference": kind},
+                              "last_has_own_structure": last_same, "difference": kind, "loses_own_variant": bool(lost)},
                              dict(case, order=[labels[j] for j in sub], candidate=labels[i]),
                              {"alone": alone[id(c)]}, {"in_pool": res[id(c)], "diff": diff})
     return n_checked
@@ -889,7 +904,9 @@ def toy_pool_cases(rng, n):
     sites = sorted(g.mutations)
     shapes = [(["1", "1"], [("1", 2)]), (["1", "1", "1"], [("1", 3)]), (["1", "1"], [("1", 1), ("1C", 1)]), (["1", "1"], [("1", 1), ("3", 1)]),
               (["1", "1"], [("2", 1), ("3", 1)]), (["1", "6"], [("3", 1), ("6", 1)]), (["1", "1", "1"], [("1", 2), ("3", 1)]),
-              (["1", "1", "1"], [("1", 1), ("1C", 1), ("3", 1)]), (["1"], [("1", 1)]), (["1", "1"], [("3", 2)]), (["1", "1", "1"], [("1C", 3)])]
+              (["1", "1", "1"], [("1", 1), ("1C", 1), ("3", 1)]), (["1"], [("1", 1)]), (["1", "1"], [("3", 2)]), (["1", "1", "1"], [("1C", 3)]),
+              # structures WITHOUT a full gene copy: some regions have copy number 0 on every copy
+              (["4"], [("4#1", 1)]), (["5"], [("5", 1)]), (["4", "6"], [("4#3", 1), ("6", 1)])]
     out = []
     # DESIGN.md section 5 item 8: A = 2x*1, B = 3x*1, T>A (sub-allele 1.002) on 5 of 30 reads
     p = [m for m in sites if m[1] == "T>A" and g.get_rsid(m) == "rs28371732"][0]
@@ -897,6 +914,11 @@ def toy_pool_cases(rng, n):
     # pooled variant list: 2x*1 alone vs next to *1,*3 with C>T on 10 of 20 reads
     q = [m for m in sites if m[1] == "C>T"][0]
     out.append({"id": "w-pooled-variants", "table": [[list(q), 10], [[q[0], "_"], 10]], "shapes": [0, 3]})
+    # a candidate with two full copies next to candidates whose structure lacks whole regions: every variant on all reads of a site
+    for j, m in enumerate(sites):
+        if not (m[1].startswith("ins") or m[1].startswith("del")) and j % 2 == 0:
+            out.append({"id": f"w-regionless-{j}", "table": [[list(m), 20]], "shapes": [3, 11, 12]})
+            out.append({"id": f"w-regionless-b-{j}", "table": [[list(m), 20]], "shapes": [0, 13]})
     for k in range(n):
         d = rng.choice([10, 20, 30])
         table = []
